@@ -128,21 +128,28 @@ def find_nearest_index_satisfying_monotonic_condition(arr: List[TrajectoryData],
         The index of the object with the nearest target value. In case of tie, the smaller index is returned.
 
     """
+    if len(arr) == 0:
+        return -1
     # Find the position where target_time would fit
-    pos = bisect.bisect_left(BisectWrapper(arr, value_getter), target_value)
+    wrapper = BisectWrapper(arr, value_getter)
+    pos = bisect.bisect_left(wrapper, target_value)
 
     # Compare neighbors to find the nearest index
     if pos == 0:
         return 0
     if pos == len(arr):
-        return len(arr) - 1
-    before = pos - 1
-    after = pos
-    if abs(value_getter(arr[before]) - target_value) <= abs(
-        value_getter(arr[after]) - target_value
-    ):
-        return before
-    return after
+        nearest = len(arr) - 1
+    else:
+        before = pos - 1
+        after = pos
+        if abs(value_getter(arr[before]) - target_value) <= abs(
+            value_getter(arr[after]) - target_value
+        ):
+            nearest = before
+        else:
+            nearest = after
+    # Several points can carry the nearest value: the smaller index is returned
+    return bisect.bisect_left(wrapper, value_getter(arr[nearest]))
 
 
 def find_index_of_point_for_distance(
@@ -186,7 +193,7 @@ def find_index_for_time_point(
         index = find_nearest_index_satisfying_monotonic_condition(
             shot.trajectory, time, lambda e: e.time
         )
-        if abs(shot.trajectory[index].time - time) <= max_time_deviation_in_seconds:
+        if index >= 0 and abs(shot.trajectory[index].time - time) <= max_time_deviation_in_seconds:
             return index
         return -1
     # This is original sequential code for search of index for time point
